@@ -829,7 +829,7 @@ class C11(SimSpec):
     rule = (
         "fault enumeration by replay: for each base scenario a reference run numbers the scheduling points (lock operations, file mutations, directory scans, external "
         "commands, sleeps) of one submitter round - the login submit-jobs or a later try-submit-jobs on a compute node or from the user; the scenario is then re-executed with the "
-        "same schedule and at point k one of: kill, torn write (write-opens), OSError(EDQUOT) (writes/renames/removes), lock acquisition failure (lock points), sbatch failing "
+        "same schedule and at point k one of: kill of the process, death of the whole node (rounds on compute nodes), torn write (write-opens), OSError(EDQUOT) (writes/renames/removes), lock acquisition failure (lock points), sbatch failing "
         "after all retries / answering garbage, squeue failing after all retries; then a random continuation (other nodes finish and try rounds, the user runs try-submit-jobs / "
         "show-status from two hosts) to quiescence, under both lock-library behaviours; oracles over the whole faulty history: no job handed to sbatch twice, none started twice, "
         "none started before its blockers have outcomes, every result row ever seen still on disk; after a squeue failure the run must reach the fault-free outcome; "
@@ -912,6 +912,8 @@ class C11(SimSpec):
                 is_mut = is_wopen or ev in ("os.rename", "os.remove", "os.mkdir")
                 for fl, cont in modes:
                     add({"crash_at": [en["ord"], kp, "die"], "cont": cont}, fl, "kill")
+                    if en["ord"] > 0 and (tier == "thorough" or kp % 3 == 0):
+                        add({"crash_at": [en["ord"], kp, "nodekill"], "cont": cont}, fl, "node_dies_in_round")
                     if is_mut:
                         add({"crash_at": [en["ord"], kp, "raise"], "cont": cont}, fl, "edquot")
                     if is_wopen and mode in ("w", "a") and (tier == "thorough" or kp % 2 == 0):
